@@ -59,12 +59,25 @@ fn main() {
     "run" => {
       let tier = if args[3] == "thorough" { Tier::Thorough } else { Tier::Quick };
       let seed: u64 = args[4].parse().unwrap_or(0);
-      let ctx = Ctx::new(&args[2], tier, seed);
-      if !dispatch(&args[2], &ctx, None) {
+      let ctx: &'static Ctx = Box::leak(Box::new(Ctx::new(&args[2], tier, seed)));
+      let p = engine::part();
+      engine::start_watchdog(ctx, args[5].clone(), vec![args[3].clone(), seed.to_string(), p.0.to_string(), p.1.to_string()]);
+      if !dispatch(&args[2], ctx, None) {
         eprintln!("unknown property {}", args[2]);
         std::process::exit(2);
       }
       ctx.write_result(&args[5]);
+    }
+    "replay" if args.len() > 4 && args[4] == "stuck" => {
+      // replay of a non-termination report: re-run the worker that got stuck, under the same watchdog
+      let tier = if args.get(8).map(|s| s.as_str()) == Some("thorough") { Tier::Thorough } else { Tier::Quick };
+      let seed: u64 = args.get(9).and_then(|s| s.parse().ok()).unwrap_or(0);
+      std::env::set_var("VERIF_PART", format!("{}/{}", args.get(10).cloned().unwrap_or("0".into()), args.get(11).cloned().unwrap_or("1".into())));
+      println!("replay {} non-termination: re-running worker {} under the watchdog", args[2], std::env::var("VERIF_PART").unwrap());
+      let ctx: &'static Ctx = Box::leak(Box::new(Ctx::new(&args[2], tier, seed)));
+      engine::start_watchdog(ctx, args[3].clone(), vec![]);
+      dispatch(&args[2], ctx, None);
+      ctx.write_result(&args[3]);
     }
     "replay" => {
       let ctx = Ctx::new(&args[2], Tier::Thorough, 0);
